@@ -462,9 +462,14 @@ class SymReal:
         if z3.is_rational_value(t):
             fr = Fraction(t.numerator_as_long(), t.denominator_as_long())
             return SymReal(z3.RealVal(math.floor(fr)), True)
+        memo = c.__dict__.setdefault('memo', {})
+        key = ('floor', t.get_id())
+        if key in memo:
+            return SymReal(memo[key][0], True)
         k = z3.Real(c.name('floor'))
         c.ints[k.get_id()] = k
         c.pc.append(z3.And(k <= t, t < k + 1))
+        memo[key] = (k, t)
         return SymReal(k, True)
 
     def ceil(s):
@@ -475,9 +480,14 @@ class SymReal:
         if z3.is_rational_value(t):
             fr = Fraction(t.numerator_as_long(), t.denominator_as_long())
             return SymReal(z3.RealVal(math.ceil(fr)), True)
+        memo = c.__dict__.setdefault('memo', {})
+        key = ('ceil', t.get_id())
+        if key in memo:
+            return SymReal(memo[key][0], True)
         k = z3.Real(c.name('ceil'))
         c.ints[k.get_id()] = k
         c.pc.append(z3.And(k - 1 < t, t <= k))
+        memo[key] = (k, t)
         return SymReal(k, True)
 
     __floor__ = floor
